@@ -1,6 +1,7 @@
 #!/bin/bash
 # usage: tools/reconfirm.sh [<name>...]  — re-verify seeded changes against /repo HEAD (applies, builds, suite passes,
 # demonstration fails with the change / passes without). Prints one line per change.
+mkdir -p /tmp/seed
 export GOFLAGS=-mod=mod GOPROXY=off GOSUMDB=off GOTOOLCHAIN=local
 cd /verif/seeded
 names="$@"; [ -z "$names" ] && names=$(ls | grep -v README)
